@@ -485,5 +485,13 @@ def rule_single_writer(ctx):
                 others[0][1].short, others[0][2].lineno))
 
 
+
+def rule_builders_fresh(ctx):
+    """C05.h  Every frame builder hands out a frame object of its own: frames wait in the send queue as objects and are
+    serialised later, so a shared frame goes out with the fields of the last call (rules/plumbing.py)."""
+    from .plumbing import rule_builders_fresh as rb
+    rb(ctx, 'C05.h')
+
+
 RULES = [('C05.a', rule_a), ('C05.b', rule_b), ('C05.c', rule_c), ('C05.e', rule_e), ('C05.f', rule_f),
-         ('C01.c', rule_g), ('C05.g', rule_single_writer)]
+         ('C01.c', rule_g), ('C05.g', rule_single_writer), ('C05.h', rule_builders_fresh)]
